@@ -264,7 +264,9 @@ def explains(violation, case, finding):
     if kind == 'filter_pair':
         ls, rs = pair
         return drops_pair_level(tok(ls), tok(rs), measure, thr, qval) is True
-    lspec, rspec = case['tables'][op['l']], case['tables'][op['r']]
+    from sim.world import effective_tables
+    et = effective_tables(case, ci)
+    lspec, rspec = et[op['l']], et[op['r']]
     lki = lspec['columns'].index(op['l_key'])
     rki = rspec['columns'].index(op['r_key'])
     lai = lspec['columns'].index(op['l_attr'])
